@@ -35,7 +35,7 @@ def cases():
         'N': N, 'h': h, 'arel': st.floats(-4.0, 3.0), 'coef': coef, 'scaled': st.booleans(),
         'deg': st.integers(0, 11), 'lam': st.sampled_from([2.0, -3.0, 0.5, 7.25]), 'shift': st.floats(-50.0, 50.0),
         'angle': st.floats(0.0, 6.283), 'px': st.floats(-10, 10), 'py': st.floats(-10, 10),
-        'xstart': st.floats(-5, 5),
+        'xstart': st.floats(-5, 5), 'other': st.sampled_from([1, 3, 5, 9, 13, 17, 21]),
     })
     k14 = base.map(lambda d: dict(d, kind='h14'))
     k14_23 = base.map(lambda d: dict(d, kind='h14', N=23))
@@ -45,6 +45,7 @@ def cases():
         'kind': st.just('corner'), 'N': st.sampled_from([17, 21]), 'h1': st.sampled_from([1.0, 0.5, 2.0, 0.25, 0.75]),
         'ratio': st.sampled_from([1.0, 2.0, 0.5, 1.5]), 'orient': st.integers(0, 7),
         'cx': st.integers(-3, 3), 'cy': st.integers(-3, 3), 'a1': st.sampled_from([0.0, 1.0, 2.5, 4.0]),
+        'a2off': st.sampled_from([0.0, 0.0, 1.5, -1.0, 'zero', 'seam']), 'other': st.sampled_from([1, 5, 9, 17, 21]),
         'poly': st.lists(st.integers(-4, 4), min_size=10, max_size=10),
     })
     return st.one_of(k14, k12, k12, k14, kg, k14_23, corner)
@@ -108,12 +109,13 @@ def poly_case(case, rec):
         return lam * r
 
     cc = [ck / hf**k for k, ck in enumerate(c)] if scaled else c
+    other = case.get('other', N)
     if kind == 'h14':
-        S = slob(N, min(N, 21))
+        S = slob(N, min(other, 21))            # the two orders of the constructor are independent
         exact = float(slobo.exact_h14_over_sqrt_h(cc, hf)) * math.sqrt(h)
         call = lambda fun, lo, hi: float(S.seminorm_h_1_4(fun, lo, hi))
     else:
-        S = slob(min(N, 21), N)
+        S = slob(other, N)
         exact = float(slobo.exact_h12(cc, hf))
         if kind == 'h12':
             call = lambda fun, lo, hi: float(S.seminorm_h_1_2(fun, lo, hi))
@@ -183,7 +185,7 @@ ORIENT = [((1, 0), (0, 1)), ((1, 0), (0, -1)), ((-1, 0), (0, 1)), ((-1, 0), (0, 
 def corner_case(case, rec):
     from src.parametrization import line
     N = case['N']
-    S = slob(min(N, 21), N)
+    S = slob(case.get('other', N), N)
     h1 = float(case['h1'])
     h2 = h1 * float(case['ratio'])
     d1, d2 = ORIENT[case['orient'] % 8]
@@ -192,7 +194,14 @@ def corner_case(case, rec):
     Bp = C + h2 * np.array(d2, dtype=float)
     a1 = float(case['a1'])
     b1 = a1 + h1
-    a2, b2 = b1, b1 + h2
+    # the parameter interval of the second piece need not continue that of the first (each piece parametrised from
+    # 0, unrelated offsets, or the closing corner of a closed curve: first piece ends at L, second starts at 0)
+    off = case.get('a2off', 0.0)
+    a2 = b1 if off == 0.0 else (0.0 if off in ('zero', 'seam') else b1 + float(off))
+    if off == 'seam':
+        a1 = 4.0 - h1
+        b1 = 4.0
+    b2 = a2 + h2
     g1, _ = line(A, C, x_start=a1)
     g2, _ = line(C, Bp, x_start=a2)
     pc = case['poly']
